@@ -76,10 +76,11 @@ class BuiltinBroachingCodeGenerator(BroachingCodeGenerator):
 
     def produce_code(self, signature: Signature, closure_name: str) -> tuple[str, Mapping[str, object]]:
         builder = CodeBuilder()
-        namespace = BuiltinCascadeNamespace(occupied=signature.parameters.keys())
+        # the closure name is occupied, so constants can not be shadowed by the defined function
+        namespace = BuiltinCascadeNamespace(occupied={*signature.parameters.keys(), closure_name})
         state = self._create_state(namespace=namespace)
 
-        namespace.add_outer_constant("_closure_signature", signature)
+        signature_var = state.register_mangled("_closure_signature", signature)
         no_types_signature = signature.replace(
             parameters=[param.replace(annotation=Signature.empty) for param in signature.parameters.values()],
             return_annotation=Signature.empty,
@@ -88,7 +89,7 @@ class BuiltinBroachingCodeGenerator(BroachingCodeGenerator):
             body = self._gen_plan_element_dispatch(state, self._plan)
             builder += "return " + ast.unparse(body)
 
-        builder += f"{closure_name}.__signature__ = _closure_signature"
+        builder += f"{closure_name}.__signature__ = {signature_var}"
         builder += f"{closure_name}.__name__ = {closure_name!r}"
         return builder.string(), namespace.all_constants
 
